@@ -25,6 +25,8 @@ func main() {
 		cmdViews()
 	case "resolve":
 		cmdResolve()
+	case "subst":
+		cmdSubst()
 	default:
 		fmt.Fprintln(os.Stderr, "unknown command", os.Args[1])
 		os.Exit(2)
